@@ -174,6 +174,15 @@ def _fork_run(names):
     return bad
 
 
+def fork(params):
+    serial_pools()
+    bad = []
+    for names in (["s0", "s0", "s0", "s0"], ["s0", "s1", "s0", "s1"]):
+        for _ in range(3):
+            bad += _fork_run(names)
+    return {"violated": bool(bad), "problems": bad[:3]}
+
+
 def bounded(params):
     serial_pools()
     tier, seed = params.get("tier", "quick"), int(params.get("seed", 0))
